@@ -21,21 +21,21 @@ VOCAB = ['a', 'b', ' ', '\n', '\n\n', '%c\n', '{', '}', '[', ']', '$', '$$', '\\
          '\\"', '\\c', '\\cite', '\\ref', '\\textcolor', '\\gls', '\\caption', '\\LTskip', '\\LTadd', '\\LTalter', '\\LTinput',
          '%%% LT-SKIP-BEGIN\n', '%%% LT-SKIP-END\n', '\\selectlanguage', '\\foreignlanguage', '{german}', '\\usepackage', '{babel}',
          '\\text', '\\mbox', '\\hspace', '\\phantom', '\\newtheorem', '\\renewcommand', '.', ',', '=', '+', '\\xspace', '\\cref',
-         '\\footcite', '\\documentclass', '\\item[', '\\,', '\\par', '"a', '"', '\\x', '\\newcommand{\\x}[2][d  e]{#1\\verb|vwxyz|#2}',
+         '\\footcite', '\\documentclass', '\\item[', '\\,', '\\par', '"a', '"', '\\x', '\\newcommand{\\x}[2][d       e]{#1\\verb|vwxyz|#2}',
          '\\frac', '_', '^', '\\q', '\\newcommand{\\q}{\\begin{verbatim}uvw\\end{verbatim}}', '\\newglossaryentry', '\\texorpdfstring', '\\href', '\\substack', '\\begin{verbatim}', '\\end{verbatim}',
          '\\chapter', '\\title', '\\hphantom', '\\vspace', '\\framebox', '\\newacronym', '\\Gls', '\\includegraphics', '\\lstinputlisting',
          '\\begin{otherlanguage}', '\\end{otherlanguage}', '\\printbibliography', '\\textbackslash', '\\\'', '\\v', '\t', 'ä', 'Ж']
 MID = ['a', ' ', '\n\n', '%c\n', '{', '}', '[', ']', '$', '$$', '\\[', '\\]', '&', '\\\\', '#1', '\\foo', '\\footnote', '\\section',
        '\\item', '\\begin', '\\end', '{itemize}', '{equation}', '{verbatim}', '\\verb', '|', '\\newcommand', '\\def', '\\"', '\\cite',
-       '\\LTinput', '%%% LT-SKIP-BEGIN\n', '\\foreignlanguage', '{german}', '\\text', '\\x', '\\newcommand{\\x}[2][d  e]{#1\\verb|vwxyz|#2}',
+       '\\LTinput', '%%% LT-SKIP-BEGIN\n', '\\foreignlanguage', '{german}', '\\text', '\\x', '\\newcommand{\\x}[2][d       e]{#1\\verb|vwxyz|#2}',
        '\\gls', '\\item[', '"a']
 CORE12 = ['{', '}', '[', ']', '$', '\\begin', '\\end', '\\item', '#1', '\\section', '\\verb', '\n\n']
 KEYVAL = ['\\usepackage[a=', '\\documentclass[', '\\includegraphics[width=', '\\newglossaryentry{k}{name=', '{', '}', ']', ',', '=', 'b', '\\foo', ' ']
 MID24 = ['a', '\n\n', '%c\n', '{', '}', '[', ']', '$', '\\[', '&', '#1', '\\foo', '\\footnote', '\\section', '\\item', '\\begin', '\\end',
          '{itemize}', '{equation}', '\\verb', '\\newcommand', '\\"', '\\foreignlanguage', '\\x']
-CORE8 = ['a', '{', '}', '$', '\\[', '\\footnote', '\\x', '\\newcommand{\\x}[2][d  e]{#1\\verb|vwxyz|#2}']
+CORE8 = ['a', '{', '}', '$', '\\[', '\\footnote', '\\x', '\\newcommand{\\x}[2][d       e]{#1\\verb|vwxyz|#2}']
 
-DEFS = '\\newcommand{\\x}[2][d  e]{#1\\verb|vwxyz|#2}\n\\newcommand{\\q}{\\begin{verbatim}uvw\\end{verbatim}}\n'
+DEFS = '\\newcommand{\\x}[2][d       e]{#1\\verb|vwxyz|#2}\n\\newcommand{\\q}{\\begin{verbatim}uvw\\end{verbatim}}\n'
 REPL = ['a b & a b c d', 'a & ', 'b & bbbbbbbb', '# comment', '& x', 'z.B. & zum Beispiel']
 PROFILES = [
     dict(opts={}, ml=False),
